@@ -321,6 +321,57 @@ def step (_ : Unit) (op impl : String) : Unit × String × String :=
     | _ => ("bad-op", "ok")
   ((), r.1, r.2)
 
+/-- per-case state of the session histories -/
+structure DState where
+  keys : Option SessionKeys := none
+  sealed : Option SendPacket := none    -- the last genuine packet as it went on the wire
+  plain : Bytes := []
+
+def stepS (st : DState) (op impl : String) : DState × String × String :=
+  match fields op with
+  | ["sopen", key, iv] =>
+    match hexDecode key, hexDecode iv with
+    | some key, some iv =>
+      if key.length < 16 ∨ iv.length < 16 then (st, "bad-op", "ok")
+      else ({ keys := some { aesKey := key, aesIV := iv }, sealed := none, plain := [] }, "ok", if impl == "ok" then "ok" else "viol:unexpected-result")
+    | _, _ => (st, "bad-op", "ok")
+  | ["sgen", seq, msgno, chid, chtype, payload] =>
+    match seq.toNat?, hexDecode msgno, hexDecode chid, chtype.toNat?, hexDecode payload with
+    | some seq, some msgno, some chid, some chtype, some payload =>
+      if seq ≥ 2 ^ 32 ∨ chtype > 255 then (st, "bad-op", "ok") else
+      match st.keys with
+      | none => (st, "err:no-session", "ok")
+      | some _ =>
+        let m := kv impl
+        match lookHex m "enc", lookHex m "mk" with
+        | some enc, some mk =>
+          let sealed : SendPacket := { clientSeq := seq, clientMsgNo := msgno, channelID := chid, channelType := chtype, payload := enc, msgKey := mk }
+          let mo := sendLine { sealed with payload := payload } ++ s!" enc={hexEncode enc} mk={hexEncode mk}"
+          ({ st with sealed := some sealed, plain := payload }, mo, if impl == mo then "ok" else "viol:genuine-send-rejected")
+        | _, _ => (st, "-", "viol:unparseable-output")
+    | _, _, _, _, _ => (st, "bad-op", "ok")
+  | ["srep", tamper] =>
+    match st.keys, st.sealed with
+    | none, _ => (st, "err:no-session", "ok")
+    | some _, none => (st, "err:no-genuine", "ok")
+    | some _, some sealed =>
+      if tamper.startsWith "c:" || tamper == "shift" || (tamper.splitOn ":").getD 1 "" == "msgkey" || (tamper.splitOn ":").getD 1 "" == "topic"
+          || (tamper.splitOn ":").getD 1 "" == "expire" then (st, "bad-op", "ok") else
+      match applyTamper sealed tamper with
+      | none => (st, "bad-op", "ok")
+      | some (tp, coveredChanged, _) =>
+        let wire : SendPacket := { tp with clientSeq := tp.clientSeq % 2 ^ 32 }
+        -- the key is the one the session has already verified once: it must still be checked against THIS content
+        let accepted := sendPreimage wire == sendPreimage sealed
+        let mo := if !accepted then Err.mismatch.str
+                  else if wire.payload == sealed.payload then sendLine { wire with payload := st.plain } else "-"
+        let v := if coveredChanged then (if impl.startsWith "ok " then "viol:tampered-send-accepted" else "ok")
+                 else if impl.startsWith "ok " then "ok" else "viol:genuine-send-rejected"
+        (st, mo, v)
+  | _ =>
+    let r := step () op impl
+    (st, r.2.1, r.2.2)
+
 end C25Drv
 
-def main : IO Unit := Drv.main { init := (), step := C25Drv.step }
+def main : IO Unit := Drv.main { init := ({} : C25Drv.DState), step := C25Drv.stepS }
